@@ -794,6 +794,10 @@ fn gen_type(cx: &mut Ctx, mpath: &str, m: &mut Module, uses: &mut Vec<ItemPath>)
         if cx.rng.chance(1, 5) && a < 16 {
             a *= 2;
         }
+        if total == 0 && cx.rng.coin() {
+            // an empty type may still be over-aligned; whoever embeds it has to honour that
+            a = 1 << cx.rng.below(5);
+        }
         // default rule: sole member's alignment, else pointer width
         let padded_total = align_up(total, a);
         let will_pad = padded_total != total;
